@@ -3,7 +3,7 @@ import ast
 
 from ..cfg import CFG
 from ..guards import TOP, GuardAnalysis, show_state
-from ..report import AnalysisError, norm
+from ..report import borrow, AnalysisError, norm
 from ..srcmodel import own_nodes
 from ..terms import Resolver, alternatives, fields_in, show, walk
 
@@ -43,6 +43,13 @@ def run(rep, ctx):
         borrow(rep, c18.r1_fraction_value, ctx, "C18.R1", "C08.R6", keep=lambda o: any(d in o.key for d in ("__lt__", "__le__", "__gt__", "__ge__", "__float__")))
     except AnalysisError as e:
         rep.error("C08.R6", str(e))
+    from . import c07
+    rep.rule("C08.R7", "a Quantity's equality class and hash cannot drift apart after creation: it owns its composing map (shared with C07.R4) and compares it as an ordered sequence (C07.R6)")
+    try:
+        borrow(rep, c07.r4_capture, ctx, "C07.R4", "C08.R7")
+        borrow(rep, c07.r6_eq_hash, ctx, "C07.R6", "C08.R7", keep=lambda o: o.key.startswith("Quantity:"))
+    except AnalysisError as e:
+        rep.error("C08.R7", str(e))
     rep.not_decided += [
         "reflexivity and symmetry of == beyond the guard forms (exact-type or isinstance guards with Python's subclass-first dispatch)",
         "that the numeric comparison itself orders by physical amount (follows from R3 plus C01's strictly increasing conversions)",
